@@ -9,6 +9,8 @@
 (*   "alias"       client:  import lib as l  ... l.<name>                    *)
 (*   "fromalias"   client:  from lib import <name> as c_<name>               *)
 (*   "star"        client:  from lib import *   ... <name>                   *)
+(*   "factory"     client:  from lib import make_x ... make_x().<member>     *)
+(*                 (the class itself is never named outside the library)     *)
 (* For the client forms the preserve set is what the tool itself derives     *)
 (* from the client file (format_files(.., preserved_filenames=[client]) /    *)
 (* `pyrefact lib.py --preserve client.py`).                                  *)
